@@ -218,6 +218,7 @@ def _plan(tier):
             P.append(("mc", dict(table="d+d", n=3, kind=kind, check=False), R))
             P.append(("mc", dict(table="rot", n=3, kind=kind, check=True), R + ("failed",)))
             P.append(("forcebias", dict(n=3, kind=kind), ("stepped",)))
+    P.append(("mc", dict(table="d", n=2, kind="fixatoms", check=False), (), "fixed-atoms-do-not-move"))
     return P
 
 
